@@ -51,6 +51,12 @@ def cases(tier):
                     for et in ([], [UNK_ETM, db_etm[0]], [db_etm[0], UNK_ETM], [db_etm[0], UNK_ETM, db_etm[1]]):
                         if ch or cb or et:
                             out.append((role, marker, tuple(ch), tuple(cb), tuple(et), 'mixed'))
+    # long lists: the relevant name behind N other names, N on both sides of 50, 64, 128 and 255
+    for role in ('server', 'client'):
+        for marker in ('none', 'own'):
+            for n in (49, 50, 51, 63, 64, 65, 127, 128, 129, 255, 256):
+                for ch, cb, et in (([dch], [], []), ([], [db_cbc[0]], [db_etm[0]]), ([], [db_cbc[0]], []), ([], [], [db_etm[0]]), ([dch], [db_cbc[0]], [db_etm[0]])):
+                    out.append((role, marker, tuple(ch), tuple(cb), tuple(et), 'long:%d' % n))
     return out
 
 
@@ -58,7 +64,8 @@ CTX_BANNER = {'default': b'SSH-2.0-OpenSSH_9.6', 'mixed': b'SSH-2.0-OpenSSH_9.6'
 
 
 def banner_of(case):
-    return CTX_BANNER[case[5] if len(case) > 5 else 'default']
+    ctx = case[5] if len(case) > 5 else 'default'
+    return CTX_BANNER['default' if ctx.startswith('long:') else ctx]
 
 
 def kind(name):
@@ -79,6 +86,11 @@ def build(case):
         kex.append(other)
     enc = [FILL_ENC if ctx != 'flawless' else 'aes256-gcm@openssh.com'] + list(ch) + list(cb)
     mac = [FILL_MAC if ctx != 'flawless' else 'hmac-sha2-512-etm@openssh.com'] + [m for m in et if ctx != 'flawless' or m != 'hmac-sha2-512-etm@openssh.com']
+    if ctx.startswith('long:'):
+        n = int(ctx[5:])
+        enc = ['filler-enc-%03d@example.org' % i for i in range(n - 1)] + [FILL_ENC] + list(ch) + list(cb)
+        mac = ['filler-mac-%03d@example.org' % i for i in range(n - 1)] + [FILL_MAC] + list(et)
+        return kex, enc, mac
     if ctx != 'default':
         return kex, enc, mac
     if ch and ch[0] in H.master_db()['mac']:
